@@ -464,6 +464,7 @@ type e2eCfg struct {
 	binary  bool
 	gap     time.Duration
 	client  string // raw | go
+	second  bool   // go client: a second outage right after the recovery, no live event in between
 }
 
 func runE2E(run *vk.Run, r *rand.Rand, cfg e2eCfg) {
@@ -711,6 +712,33 @@ func runE2E(run *vk.Run, r *rand.Rand, cfg e2eCfg) {
 	}
 	recAfter := time.Now()
 	recovered := recoveredFlag.Load()
+	if cfg.second && recovered {
+		// second outage right after the recovery, with NO live event in between: the offset the client presents
+		// next has to come from the packets it was replayed. Barrier without traffic: the replay has arrived.
+		if !vk.WaitUntil(30*time.Second, func() bool { rmu.Lock(); defer rmu.Unlock(); return len(received) >= nBefore+nMissed }) {
+			run.Inconclusive("go client: replay of the first recovery incomplete")
+			return
+		}
+		d0 := disconnects.Load()
+		px.CutAll()
+		if !vk.WaitUntil(10*time.Second, func() bool { return disconnects.Load() > d0 }) {
+			run.Inconclusive("go client: server did not notice the second cut")
+			return
+		}
+		for i := 0; i < nMissed; i++ {
+			emitGo(nil)
+		}
+		if !vk.WaitUntil(cfg.gap+30*time.Second, func() bool { return connects.Load() >= 3 }) {
+			run.Inconclusive("go client: did not reconnect after the second cut")
+			return
+		}
+		if !recoveredFlag.Load() {
+			run.Violation(vk.Violation{Sub: "not-recovered-inside-window", Fields: fields,
+				What: fmt.Sprintf("second outage (%v) right after a recovery, no live event in between: the session was not recovered a second time", cfg.gap), Witness: wit})
+		}
+		wit["second_outage"] = true
+		run.Count("e2e_second_outage_trials", 1)
+	}
 	// fence: a direct event after reconnect
 	vk.WaitUntil(10*time.Second, func() bool { mu.Lock(); defer mu.Unlock(); return len(conns) >= 2 })
 	ss2, _ := cur.Load().(sio.ServerSocket)
@@ -735,7 +763,7 @@ func runE2E(run *vk.Run, r *rand.Rand, cfg e2eCfg) {
 	mu.Lock()
 	c := append([]ssRec(nil), conns...)
 	mu.Unlock()
-	if len(c) >= 2 && recovered != c[1].recovered {
+	if len(c) >= 2 && !cfg.second && recovered != c[1].recovered {
 		run.Violation(vk.Violation{Sub: "restored-identity", Fields: fields, What: fmt.Sprintf("client Recovered()=%v but server socket Recovered()=%v", recovered, c[1].recovered), Witness: wit})
 	}
 }
@@ -895,7 +923,7 @@ func runCleanerRace(run *vk.Run, rep int) {
 func main() {
 	run := vk.Start("C08", "exploration")
 	run.Rule("adapter histories: n broadcasts {namespace, room with exclusions, direct, room} x {text, binary, ack-carrying} over 3 sessions x 3 rooms, disconnect at every point k, reconnect gap on both sides of the window, " +
-		"clean-up period {off, 2 ms, 10 ms}; a steady broadcast stream running concurrently with 1 ms clean-up passes around a lost and restored session; end to end with a raw peer and with the Go client (proxy cut); distinct = (layer, outcome class, binary, cleaner on/off, clean-up passes bucket, missed-count bucket)")
+		"clean-up period {off, 2 ms, 10 ms}; a steady broadcast stream running concurrently with 1 ms clean-up passes around a lost and restored session; end to end with a raw peer and with the Go client (proxy cut; half of the recoverable Go-client trials add a second outage right after the recovery without any live event in between); distinct = (layer, outcome class, binary, cleaner on/off, clean-up passes bucket, missed-count bucket)")
 	run.Assume("time is bracketed: must-recover only when an upper bound of the elapsed time is inside the window (and the offset entry is provably unexpired or the cleaner is off), must-not only when a lower bound is outside",
 		"a client that never received an offset cannot recover (reference behaviour)")
 	r := run.Rand("c08")
@@ -962,6 +990,7 @@ func main() {
 		cfg := e2eCfg{window: window, binary: i%2 == 1, client: []string{"raw", "go"}[(i/2)%2]}
 		cfg.cleaner = []time.Duration{0, 10 * time.Millisecond}[(i/4)%2]
 		cfg.gap = []time.Duration{60 * time.Millisecond, 700 * time.Millisecond, 60 * time.Millisecond}[i%3]
+		cfg.second = cfg.client == "go" && cfg.gap < window && (i/12)%2 == 0
 		er := rand.New(rand.NewSource(r.Int63()))
 		wg.Add(1)
 		sem <- struct{}{}
